@@ -855,7 +855,9 @@ class ProtocolTransportMixin:
         self.transport.write(data.replace(b"\n", b"\r\n"))
 
     def writeSequence(self, seq):
-        self.transport.writeSequence(seq)
+        # Go through write() so that the data gets the same newline
+        # conversion (and, for TelnetTransport, IAC escaping) as write().
+        self.write(b"".join(seq))
 
     def loseConnection(self):
         self.transport.loseConnection()
